@@ -69,3 +69,66 @@ class EFloatFormat_maxval(Contract):
 
     def raises(self, s):
         return {}
+
+
+class EFloatContext_round(Contract):
+    target = 'fpy2.number.context.efloat:EFloatContext.round'
+    params = {'self': 'EFloatContext', 'x': 'RealFloat | Float', 'exact': 'bool'}
+    returns = 'Float'
+    properties = ['C01']
+    binds = {'result._ctx': 'self'}
+    # thin layer over MPBFloatContext.round + _fixup: the rounding function and the membership predicates stay folded
+    options = {'noax_first_ms': 8000, 'light_theory': True,
+               'opaque': {'fits_p': ['all', 'bool'], 'grid_ok': ['all', 'bool'], 'mag_lt_ec': ['all', 'bool'],
+                          'rnd_at': ['all', 'tuple[int, int, bool, bool]']}}
+
+    def pre(self, x, exact):
+        return {'deterministic': self.num_randbits is not None and self.num_randbits == 0,
+                'mpb_cfg': ef2_ctx_cfg(self),
+                'subst_members': ef2_subst_ok(self)}
+
+    def post(self, x, exact, result):
+        return ef2_post(self, x, None, exact, result)
+
+    def raises(self, x, exact):
+        return ef2_raises(self, x, None, exact)
+
+
+class EFloatContext_round_at(Contract):
+    target = 'fpy2.number.context.efloat:EFloatContext.round_at'
+    params = {'self': 'EFloatContext', 'x': 'RealFloat | Float', 'n': 'int', 'exact': 'bool'}
+    returns = 'Float'
+    properties = ['C01']
+    binds = {'result._ctx': 'self'}
+    # thin layer over MPBFloatContext.round + _fixup: the rounding function and the membership predicates stay folded
+    options = {'noax_first_ms': 8000, 'light_theory': True,
+               'opaque': {'fits_p': ['all', 'bool'], 'grid_ok': ['all', 'bool'], 'mag_lt_ec': ['all', 'bool'],
+                          'rnd_at': ['all', 'tuple[int, int, bool, bool]']}}
+
+    def pre(self, x, n, exact):
+        return {'deterministic': self.num_randbits is not None and self.num_randbits == 0,
+                'mpb_cfg': ef2_ctx_cfg(self),
+                'subst_members': ef2_subst_ok(self)}
+
+    def post(self, x, n, exact, result):
+        return ef2_post(self, x, n, exact, result)
+
+    def raises(self, x, n, exact):
+        return ef2_raises(self, x, n, exact)
+
+
+class EFloatContext_round_params(Contract):
+    target = 'fpy2.number.context.efloat:EFloatContext.round_params'
+    params = {'self': 'EFloatContext'}
+    returns = 'tuple[int | None, int | None]'
+    properties = ['C01']
+
+    def pre(self):
+        return {'mpb_cfg': ef2_ctx_cfg(self)}
+
+    def post(self, result):
+        # the derived format's precision p = nbits - es and least digit nmin = emin - p, widened by the random bits
+        return widened2(self.nbits - self.es, ef2_emin(self.es, self.eoffset) - (self.nbits - self.es), self.num_randbits, result)
+
+    def raises(self):
+        return {}
